@@ -62,6 +62,9 @@ def run(ck):
     ck.log("driver built")
     res = ck.lean(PROPS, PROPS)
     ck.lean_violations(res)
+    if ck.tier == "thorough" and res.ok:
+        for m, log in ck.leanchecker(PROPS):
+            ck.violation("leanchecker:" + m, "leanchecker rejects " + m, {"log": log}, False)
 
     # ------------------------------------------------------------------ requests
     n_valid, n_mal, n_val, n_q = (2500, 2000, 1200, 300) if ck.quick else (60000, 60000, 30000, 6000)
